@@ -128,8 +128,14 @@ func runEq(ctx *common.Ctx, g *gen, n int) {
 	var descs []any
 	seen := map[string]bool{}
 	nontrivial := 0
+	lowWords := g.lowWordTriples()
 	for c := 0; c < n; c++ {
-		refs := g.refTriple()
+		var refs []aref
+		if c < len(lowWords) {
+			refs = lowWords[c] // a fixed block first: must not depend on the luck of the draw
+		} else {
+			refs = g.refTriple()
+		}
 		w := words{}
 		rterms := make([]string, len(refs))
 		shows := make([]string, len(refs))
@@ -258,6 +264,50 @@ func (g *gen) designed() []*node {
 	return out
 }
 
+// lowWordTriples: a bignum beyond int64 against the fixnum that has its low 64 bits (what big.Int.Int64 returns for
+// it: an Equal method that forgets the IsInt64 guard identifies the two, with the bignum as receiver only). Generated
+// on every run for a spread of high words k and low words u, both signs: bare (eql / equal / equalp go through same),
+// as the element of a vector (equal and equalp compare vectors with Vector.Equal, i.e. ObjectEqual on the elements,
+// in both argument orders), and inside a list holding a vector; sxhash of all of them is observed too. Seeded change
+// C05-5 was once caught only when a random triple happened to be wrapped in a vector.
+func (g *gen) lowWordTriples() [][]aref {
+	ks := []*big.Int{big.NewInt(1), big.NewInt(2), big.NewInt(3), big.NewInt(1 << 10), pow2(40), big.NewInt(int64(g.rng.Intn(1<<20)) + 4)}
+	us := []*big.Int{big.NewInt(0), big.NewInt(1), big.NewInt(5), pow2(62), p63, add(p64, -1), add(p63, 1),
+		new(big.Int).SetUint64(uint64(g.rng.Intn(1<<30))<<32 | uint64(g.rng.Intn(1<<30)))}
+	var out [][]aref
+	i := 0
+	for _, k := range ks {
+		for _, u := range us {
+			for _, neg := range []bool{false, true} {
+				if (i+len(out))%3 != 0 && !(k.Cmp(big.NewInt(1)) == 0) { // all of k = 1, a third of the rest
+					i++
+					continue
+				}
+				i++
+				b := new(big.Int).Add(new(big.Int).Mul(p64, k), u)
+				if neg {
+					b.Neg(b)
+				}
+				lo := b.Int64() // the low 64 bits of |b| with b's sign
+				other := nBig(new(big.Int).Add(b, p64))
+				var tr []*node
+				switch len(out) % 4 {
+				case 0:
+					tr = []*node{nVec(nBig(b)), nVec(nFix(lo)), nVec(other)}
+				case 1:
+					tr = []*node{nVec(nFix(lo)), nVec(nBig(b)), nLst(nBig(b))}
+				case 2:
+					tr = []*node{nBig(b), nFix(lo), nVec(nFix(lo), nBig(b))}
+				default:
+					tr = []*node{nLst(nSym("w"), nVec(nBig(b), nFix(lo))), nLst(nSym("w"), nVec(nFix(lo), nFix(lo))), nLst(nSym("w"), nVec(nBig(b), nBig(b)))}
+				}
+				out = append(out, []aref{mkref(tr[0]), mkref(tr[1]), mkref(tr[2])})
+			}
+		}
+	}
+	return out
+}
+
 func (g *gen) refTriple() []aref {
 	if g.rng.Chance(18) {
 		ns := g.designed()
@@ -326,6 +376,20 @@ func (g *gen) simpleAtom() *node {
 }
 
 func (g *gen) keyPool() []aref {
+	if g.rng.Chance(6) {
+		// a bignum beyond int64, the fixnum with its low 64 bits, and copies of both: four simple keys, two classes
+		k := common.Pick(g.rng, []int64{1, 2, 3, 1 << 10})
+		u := common.Pick(g.rng, []*big.Int{big.NewInt(0), big.NewInt(1), big.NewInt(5), pow2(62), p63, add(p64, -1)})
+		b := new(big.Int).Add(new(big.Int).Mul(p64, big.NewInt(k)), u)
+		if g.rng.Bool() {
+			b.Neg(b)
+		}
+		pool := []aref{mkref(nBig(b)), mkref(nFix(b.Int64())), mkref(nFix(b.Int64())), mkref(nBig(b))}
+		if g.rng.Bool() {
+			pool[0], pool[1] = pool[1], pool[0]
+		}
+		return pool
+	}
 	n := 3 + g.rng.Intn(4)
 	simple := g.rng.Chance(60)
 	pool := make([]aref, 0, n)
